@@ -10,7 +10,15 @@
 //!   `to_json`.  Oracle: JSON value equality with the document as read by an independent
 //!   order-preserving parser (numbers through Rust's correctly rounded `str::parse`).
 //!   Correspondence: `json-from`, `json-echo`.
-//! * TEXT layer through the real binary (the assumption `TextRoundTrip` of Props/C06):
+//! * TEXT layer against the Lean model (`Model/JsonText.lean`; theorems `text_roundtrip`,
+//!   `value_text_roundtrip` of Props/C06): `serde_json::to_string` against `jsonWrite`
+//!   character for character on generated trees and doubles in volume;
+//!   `serde_json::from_str::<Value>` against `jsonRead` (accept/reject and tree) on
+//!   hand-written texts (white space, escapes, surrogates, number forms, structure errors,
+//!   nesting around the recursion limit), generated documents and random edits of valid
+//!   texts.  Key `c06.model.json-text`.  Oracle `c06.deep-nesting`: output nested deeper
+//!   than serde_json's recursion limit is not accepted as input (known finding).
+//! * TEXT layer through the real binary:
 //!   literals → `output` → printed JSON → `-i` of a second run → printed JSON, compared
 //!   bit for bit; documents → `output r = inputs` → compared as JSON values; number texts
 //!   through serde_json's parser/printer in volume.
@@ -1231,6 +1239,289 @@ fn check_invalid_inputs(ctx: &Ctx, dir: &std::path::Path, rep: &mut Report) {
     }
 }
 
+// ---------------------------------------------------------------- the JSON text layer against the Lean model
+
+const TEXTKEY: &str = "c06.model.json-text";
+
+/// a serde tree whose numbers are all `f64`s (the writer's modelled domain: blots builds
+/// every number with `Number::from_f64`)
+fn tv_to_serde(v: &TV) -> Option<serde_json::Value> {
+    Some(match v {
+        TV::Num(x) => serde_json::Value::Number(serde_json::Number::from_f64(*x)?),
+        TV::Bool(b) => serde_json::Value::Bool(*b),
+        TV::Null => serde_json::Value::Null,
+        TV::Str(s) => serde_json::Value::String(s.clone()),
+        TV::List(l) => serde_json::Value::Array(l.iter().map(tv_to_serde).collect::<Option<Vec<_>>>()?),
+        TV::Record(r) => {
+            let mut m = serde_json::Map::new();
+            for (k, x) in r {
+                m.insert(k.clone(), tv_to_serde(x)?);
+            }
+            serde_json::Value::Object(m)
+        }
+        _ => return None,
+    })
+}
+
+/// `serde_json::to_string` against `jsonWrite`, character for character; the written text
+/// read back by serde_json (oracle: same tree) and by `jsonRead`
+fn check_text_write(j: &serde_json::Value, model: &mut Model, rep: &mut Report) {
+    let jw = serde_wire(j);
+    let text = match guarded(|| serde_json::to_string(j)) {
+        Ok(Ok(t)) => t,
+        _ => {
+            rep.finding("oracle", "panic", &jw, "serde_json::to_string failed on a tree of finite numbers", "c06.panic");
+            return;
+        }
+    };
+    rep.case(&text, true);
+    rep.count("text.write-cases");
+    let m = model.ask(&format!("json-write {}", jw));
+    match wire::unhs(&m) {
+        Some(mt) if mt == text => {}
+        other => rep.finding("model", "json-write", &text, &format!("serde_json writes {:?}, the model {:?}", text, other.unwrap_or(m)), TEXTKEY),
+    }
+    // model-free: the text is read back as the same tree (bit-exact numbers, exact strings);
+    // serde_json refuses more than 127 levels of nesting, which is reported separately
+    match serde_json::from_str::<serde_json::Value>(&text) {
+        Ok(back) => {
+            if serde_wire(&back) != jw {
+                rep.finding("oracle", "text-roundtrip", &text, &format!("written from {} read back as {}", jw, serde_wire(&back)), "c06.text-roundtrip");
+            }
+        }
+        Err(e) => rep.finding("oracle", "text-roundtrip", &text, &format!("the written text is rejected: {}", e), "c06.text-roundtrip"),
+    }
+    let m2 = model.ask(&format!("json-read-norm {}", wire::hs(&text)));
+    if m2 != jw {
+        rep.finding("model", "json-read-written", &text, &format!("tree {} model reads {}", jw, m2), TEXTKEY);
+    }
+}
+
+/// `serde_json::from_str::<Value>` against `jsonRead` on an arbitrary text: accept/reject
+/// and the tree; when the harness' own order-preserving reader accepts too, the document
+/// tree (member order, duplicates)
+fn check_text_read(text: &str, model: &mut Model, rep: &mut Report) {
+    rep.case(text, true);
+    rep.count("text.read-cases");
+    let real = match guarded(|| serde_json::from_str::<serde_json::Value>(text)) {
+        Ok(Ok(v)) => {
+            rep.count("text.read-accepted");
+            serde_wire(&v)
+        }
+        Ok(Err(_)) => {
+            rep.count("text.read-rejected");
+            "none".to_string()
+        }
+        Err(p) => {
+            rep.finding("oracle", "panic", text, &format!("serde_json::from_str panicked: {}", p), "c06.panic");
+            return;
+        }
+    };
+    let m = model.ask(&format!("json-read-norm {}", wire::hs(text)));
+    if m != real {
+        rep.finding("model", "json-read", text, &format!("serde_json {} model {}", real, m), TEXTKEY);
+        return;
+    }
+    if real != "none" {
+        if let Some(doc) = jt::parse(text) {
+            let m2 = model.ask(&format!("json-read {}", wire::hs(text)));
+            if m2 != doc.wire() {
+                rep.finding("model", "json-read-document", text, &format!("reference reader {} model {}", doc.wire(), m2), TEXTKEY);
+            }
+        }
+    }
+}
+
+/// one random edit of a text (most results are invalid JSON)
+fn mutate_text(text: &str, rng: &mut Rng) -> String {
+    let mut cs: Vec<char> = text.chars().collect();
+    const INS: &[char] = &[',', ']', '[', '{', '}', '"', '\\', ':', '0', '1', '9', 'e', 'E', '.', '-', '+', ' ', '\t', '\n', '\r', 'u', 'd', 'D', '8', 'c', 'n', 'x', '/', '\u{1}', '\u{1f}', '\u{7f}', 'é', '\u{a0}', '\u{feff}', '\u{1f600}'];
+    match rng.below(5) {
+        0 if !cs.is_empty() => {
+            let i = rng.below(cs.len());
+            cs.remove(i);
+        }
+        1 if !cs.is_empty() => {
+            let i = rng.below(cs.len());
+            cs[i] = *rng.pick(INS);
+        }
+        2 if cs.len() > 1 => {
+            let i = rng.below(cs.len() - 1);
+            cs.swap(i, i + 1);
+        }
+        3 if !cs.is_empty() => {
+            let i = rng.below(cs.len());
+            cs.truncate(i);
+        }
+        _ => {
+            let i = rng.below(cs.len() + 1);
+            cs.insert(i, *rng.pick(INS));
+        }
+    }
+    cs.into_iter().collect()
+}
+
+const HAND_TEXTS: &[&str] = &[
+    // white space
+    " 1 ", "\t\n\r [ 1 , 2 ] \n", "{ \"a\" : [ ] , \"b\" : { } }", " [ ] ", "{ }", "\u{a0}1", "1\u{a0}", "\u{feff}1", "\u{c}1", "1\u{b}", "",
+    " ", "[1 2]", "1 2", "true false", "nullx", "null ", " null", "[null,true,false]", "nul", "tru", "fals", "nulL", "True",
+    // escapes
+    "\"\\\"\\\\\\/\\b\\f\\n\\r\\t\"", "\"\\u00e9\\u00E9\\u0000\\u001f\\u007F\"", "\"\\x\"", "\"\\a\"", "\"\\U0041\"", "\"\\u12\"", "\"\\u12G4\"", "\"\\u 123\"",
+    "\"\u{1}\"", "\"\u{1f}\"", "\"\n\"", "\"\t\"", "\"\u{7f}\"", "\"\u{80}\u{2028}\u{ffff}\u{10000}\u{10ffff}\"", "\"a", "\"\\", "\"\\\"", "\"", "\"\\u\"", "'a'",
+    // surrogates
+    "\"\\ud83d\\ude00\"", "\"\\uD83D\\uDE00\"", "\"\\uDBFF\\uDFFF\"", "\"\\ud800\\udc00\"", "\"\\ud83d\"", "\"\\ude00\"", "\"\\ud83dx\"", "\"\\ud83d\\u0041\"",
+    "\"\\ud83d\\\"", "\"\\ud83d\\n\"", "\"\\udc00\"", "\"\\udfff\"", "\"\\udbff\"", "\"\\ud800\"", "\"\\ud7ff\"", "\"\\ue000\"", "\"\\ud800\\udbff\"", "\"\\udbff\\udc00\"", "\"\\ud800\\udfff\"",
+    "\"\\ud800\\ue000\"", "\"\\udbff\\udbff\"", "\"\\uDC00\"", "\"\\uDFFF\\uDC00\"", "\"\\u0020\\ud800\\udc00\\uffff\"", "\"\\ud800\\ud800\"", "\"\\ud800\\ud800\\udc00\"", "\"\\udc00\\ud800\"", "\"\\ud7ff\\ue000\"", "\"\\ud83d\\ude0\"", "\"\\ud83d\\u\"",
+    // numbers
+    "1E5", "1e5", "1e+5", "1E+05", "1e-05", "-0", "0", "-0.0", "-0e0", "0e0", "0E-0", "1.0e-3", "1.5E+3", "01", "00", "-01", "-00", "0.1e1", "0.0", "0.", "1.", ".5", "-.5", "1e", "1e+",
+    "1e-", "+1", "- 1", "-", "--1", "1.e5", "1.5.5", "1e5e5", "1e5.5", "0x10", "1_000", "NaN", "Infinity", "-Infinity", "inf", "nan", "1e999", "-1e999", "1e308", "1e309",
+    "1.7976931348623157e308", "1.7976931348623158e308", "1.797693134862315807e308", "1.797693134862315808e308", "0e999999999999999999999", "-0e999999999999999999999",
+    "1e-999999999999999999999", "1e99999999999999999999", "0.0e99999999999999999999", "18446744073709551615", "18446744073709551616", "-9223372036854775808",
+    "-9223372036854775809", "9007199254740993", "123456789012345678901234567890", "0.0000000000000000000000000000000000000000000000000001", "5e-324", "2.5e-324",
+    "2.4703282292062328e-324", "2.4703282292062327e-324", "4.9406564584124654e-324", "2.2250738585072011e-308", "2.2250738585072014e-308", "8.41e21", "1e22", "1e23",
+    "0.30000000000000004", "2.9802322387695312e-8", "2.9802322387695313e-8", "9007199254740992.5", "9007199254740993.0000000000000000000000001", "1.0000000000000002220446049250313080847263336181640625",
+    "1.00000000000000011102230246251565404236316680908203125", "1.00000000000000011102230246251565404236316680908203124", "1.00000000000000011102230246251565404236316680908203126",
+    "100000000000000000000000000000000000000000000000000000000000000000000000000000000000000000000000000000e-100", "0.000000000000000000000000000000000000000000000000001e51",
+    // structure
+    "[1,]", "[,1]", "[,]", "[1,,2]", "{\"a\":1,}", "{,}", "{\"a\":1,,\"b\":2}", "{\"a\"}", "{\"a\":}", "{\"a\" 1}", "{\"a\"::1}", "{1:1}", "{a:1}", "{\"a\":1 \"b\":2}", "{null:1}",
+    "[", "]", "{", "}", "[}", "{]", "[1}", "{\"a\":1]", "[[]", "[]]", "{}}", "[\"a\":1]", "{\"a\",1}", "{\"a\":1,\"a\":2}", "{\"a\":1,\"b\":2,\"a\":3,\"\":4,\"b\":[{\"z\":1,\"z\":{}}]}",
+    "{\"b\":1,\"a\":2}", "{\"\\u0061\":1,\"a\":2}", "{\"é\":1,\"z\":2,\"\u{10000}\":3,\"\u{ffff}\":4}", "[[[[[[[[[[1]]]]]]]]]]", "{\"a\":{\"a\":{\"a\":{\"a\":[{\"a\":null}]}}}}",
+    "[1,[2,[3,[4,{\"k\":[5,\"x\",true,null,-0.0,1e21]}]]]]", ":", ",", "\\", "[\"a\",\"b\" , \"c\"\n]",
+];
+
+fn check_json_text(ctx: &Ctx, rng: &mut Rng, fixed: &[TV], model: &mut Model, rep: &mut Report) {
+    // writer: fixed witnesses, the recursive value generator through the real
+    // from_value / to_json, and trees built directly (awkward keys, any member order)
+    let mut written: Vec<String> = vec![];
+    for v in fixed {
+        if v.is_data() && all_finite(v) {
+            if let Some(j) = tv_to_serde(v) {
+                check_text_write(&j, model, rep);
+            }
+        }
+    }
+    let extremes = [1.0, -0.0, 0.0, 1e21, 1e16, 1e15, 9999999999999998.0, 1e-5, 1e-6, 1e-7, 1.234e-5, 1.234e-6, 5e-324, f64::MAX, f64::MIN_POSITIVE, f64::EPSILON,
+        2f64.powi(-25), 1e22, 1e23, 123456789012345680.0, 0.3, 1e300, 1e-300, -1.5e300, 99999.0, 100000.0, 0.0001, 0.00001, 12345678.9];
+    check_text_write(&serde_json::Value::Array(extremes.iter().map(|x| serde_json::json!(x)).collect()), model, rep);
+    let n = ctx.budget(2500, 60000);
+    for i in 0..n {
+        let v = gen_value(rng, 1 + i % 6, true);
+        let heap = new_heap();
+        let val = v.to_value(&heap);
+        let j = if i % 2 == 0 {
+            match guarded(|| SerializableValue::from_value(&val, &heap.borrow()).map(|sv| sv.to_json())) {
+                Ok(Ok(j)) => Some(j),
+                _ => None,
+            }
+        } else {
+            tv_to_serde(&v)
+        };
+        if let Some(j) = j {
+            if i % 10 == 0 {
+                if let Ok(t) = serde_json::to_string(&j) {
+                    written.push(t);
+                }
+            }
+            check_text_write(&j, model, rep);
+        }
+    }
+    // numbers alone, in volume
+    let nn = ctx.budget(6000, 200000);
+    for _ in 0..nn / 20 {
+        let xs: Vec<serde_json::Value> = (0..20).map(|_| serde_json::json!(gen_finite(rng))).collect();
+        check_text_write(&serde_json::Value::Array(xs), model, rep);
+    }
+    // reader: hand-written texts
+    for t in HAND_TEXTS {
+        check_text_read(t, model, rep);
+    }
+    // nesting: serde_json's recursion limit
+    for d in [1usize, 2, 100, 126, 127, 128, 129, 200] {
+        check_text_read(&format!("{}{}", "[".repeat(d), "]".repeat(d)), model, rep);
+        check_text_read(&format!("{}1{}", "[".repeat(d), "]".repeat(d)), model, rep);
+        check_text_read(&format!("{}null{}", "{\"a\":".repeat(d), "}".repeat(d)), model, rep);
+        check_text_read(&format!("{}{}{}", "[{\"k\": ".repeat(d / 2), if d % 2 == 1 { "[]" } else { "0" }, "}]".repeat(d / 2)), model, rep);
+    }
+    // a long flat array and a long string (fuel)
+    check_text_read(&format!("[{}]", (0..3000).map(|i| i.to_string()).collect::<Vec<_>>().join(" , ")), model, rep);
+    check_text_read(&format!("\"{}\"", "a\\n\\u00e9é".repeat(2000)), model, rep);
+    // reader: generated documents (white space, escapes, number spellings, duplicate keys)
+    // and random edits of them and of written texts
+    let nd = ctx.budget(2500, 60000);
+    for i in 0..nd {
+        let doc = gen_doc(rng, 1 + i % 6, i % 3 == 0);
+        let text = doc_text(&doc, rng);
+        if text.len() > 4000 {
+            continue;
+        }
+        check_text_read(&text, model, rep);
+        let mut t = text.clone();
+        for _ in 0..(1 + rng.below(2)) {
+            t = mutate_text(&t, rng);
+        }
+        check_text_read(&t, model, rep);
+        if !written.is_empty() && i % 3 == 0 {
+            let w = written[rng.below(written.len())].clone();
+            if w.len() <= 4000 {
+                check_text_read(&mutate_text(&w, rng), model, rep);
+            }
+        }
+    }
+    // number tokens alone and edited
+    for _ in 0..ctx.budget(3000, 60000) {
+        let t = num_text(rng);
+        check_text_read(&t, model, rep);
+        check_text_read(&mutate_text(&t, rng), model, rep);
+    }
+}
+
+/// nesting: serde_json's writer has no depth limit, its reader refuses the 128th nested
+/// array/object ("recursion limit exceeded"), so a value nested that deep is written but
+/// cannot be an input.  Oracle (the property says "at any nesting depth").
+fn check_deep_nesting(ctx: &Ctx, dir: &std::path::Path, rep: &mut Report) {
+    for d in [60usize, 126, 127, 128, 200] {
+        // in process: the value [[…[1]…]] through to_json / to_string / from_str / from_json
+        let mut j = serde_json::json!(1.0);
+        for _ in 0..d {
+            j = serde_json::Value::Array(vec![j]);
+        }
+        let repr = format!("a list nested {} deep: {}1{}", d, "[".repeat(d), "]".repeat(d));
+        rep.case(&repr, true);
+        let text = match serde_json::to_string(&j) {
+            Ok(t) => t,
+            Err(e) => {
+                rep.finding("oracle", "deep-nesting", &repr, &format!("not written: {}", e), "c06.deep-nesting");
+                continue;
+            }
+        };
+        match serde_json::from_str::<serde_json::Value>(&text) {
+            Ok(back) if back == j => {}
+            Ok(_) => rep.finding("oracle", "deep-nesting", &repr, "written and read back as a different tree", "c06.deep-nesting"),
+            Err(e) => rep.finding("oracle", "deep-nesting", &repr, &format!("the value is written as JSON text but serde_json::from_str refuses that text: {}", e), "c06.deep-nesting"),
+        }
+        std::mem::forget(j); // (dropping very deep trees recursively is not the subject here)
+    }
+    // the real binary: output of one run as the input of the next (the outputs object adds a level)
+    for d in [60usize, 125, 126, 127, 150] {
+        let src = format!("output x = {}1{}", "[".repeat(d), "]".repeat(d));
+        rep.case(&src, true);
+        let a = run_blots(&ctx.blots_bin, &[src.clone()], None, dir);
+        rep.count("binary.runs");
+        if a.code != Some(0) || jt::parse(&a.stdout).is_none() {
+            // the evaluator itself may refuse deep literals: not this property
+            rep.count("deep-nesting.not-evaluated");
+            continue;
+        }
+        let b = run_blots(&ctx.blots_bin, &["-i".into(), a.stdout.trim().to_string(), "output x = inputs.x".into()], None, dir);
+        rep.count("binary.runs");
+        let ok = b.code == Some(0) && jt::parse(&b.stdout).and_then(|j| j.get("x").cloned()) == jt::parse(&a.stdout).and_then(|j| j.get("x").cloned());
+        if !ok {
+            rep.finding("oracle", "deep-nesting", &src, &format!("the printed output is not accepted as input / not reproduced: exit {:?} {}", b.code,
+                b.stderr.chars().take(160).collect::<String>()), "c06.deep-nesting");
+        }
+    }
+}
+
 pub fn run(ctx: &Ctx, rep: &mut Report) {
     let mut rng = Rng::new(ctx.seed);
     let mut model = Model::spawn(&ctx.model_path);
@@ -1282,6 +1573,9 @@ pub fn run(ctx: &Ctx, rep: &mut Report) {
     // number text layer
     check_number_text(&mut rng, ctx.budget(60000, 2000000), &mut model, rep);
 
+    // the JSON text layer against the Lean model (`jsonWrite` / `jsonRead`)
+    check_json_text(ctx, &mut rng, &fixed, &mut model, rep);
+
     // (ii) the real binary
     let n_batch = ctx.budget(60, 1200);
     for b in 0..n_batch {
@@ -1296,9 +1590,10 @@ pub fn run(ctx: &Ctx, rep: &mut Report) {
     // an unparsable function string stays a record
     check_binary_docs(ctx, &mut rng, &[JT::Obj(vec![("__blots_function".into(), JT::Str("hello world".into()))])], &dir, rep);
     check_invalid_inputs(ctx, &dir, rep);
+    check_deep_nesting(ctx, &dir, rep);
 
     let _ = std::fs::remove_dir_all(&dir);
     rep.model_requests = model.requests;
-    rep.notes.push("text layer (assumption TextRoundTrip of Props/C06): validated through serde_json in process and through the real binary; numbers are compared as bit patterns after reading the printed text with Rust's correctly rounded str::parse (itself sampled against the Lean parseDec)".into());
+    rep.notes.push("text layer: serde_json::to_string / from_str compared with the Lean jsonWrite / jsonRead (theorem text_roundtrip) character for character and tree for tree; also validated through serde_json in process and through the real binary; numbers are compared as bit patterns after reading the printed text with Rust's correctly rounded str::parse (itself sampled against the Lean parseDec)".into());
     rep.notes.push("objects whose __blots_function string names a built-in or parses as a lambda are excluded from the oracles (they denote functions) but included in the model correspondence".into());
 }
